@@ -23,7 +23,7 @@ CHECKS = {
          "Held on the generated evaluations executed.", "dr/dm modes need vowpalwabbit and are excluded", "3/C06"),
  "C07": ("exploration", "recording evaluators/components; table rows vs yielded rows under the documented normalisation; three-way Result equality (no file / file / from_file)",
          "Held on the generated row shapes executed.", "keys colliding after str(), id column names and registered reward-state names are not generated", "3/C07"),
- "C08": ("exploration", "unique-id exactly-once history checker over real spawn-ed Multiprocessor runs with seeded delay injection and sys.monitoring LINE/INSTRUCTION yield injection, targeted schedules (finish-together, loader-finishes-during-replacement), pid quota monitor, exception contract over several exception types, object re-use, logical deadlock-state inspector (two shapes)",
+ "C08": ("exploration", "unique-id exactly-once history checker over real spawn-ed Multiprocessor runs with seeded delay injection and sys.monitoring LINE/INSTRUCTION yield injection, targeted schedules (finish-together, loader-finishes-during-replacement), pid quota monitor, exception contract over several exception types, object re-use, outputs larger than a pipe buffer with a pausing caller, re-use of one object after an abandoned call, logical deadlock-state inspector (four shapes)",
          "Held on the runs/interleavings actually produced (distinct lineage traces counted).", "outputs never None (poison pill by design); picklable items", "3/C08"),
  "C09": ("exploration", "per-filter reference models + unique-id content preservation on the real filters",
          "Held on the generated filter applications executed.", "which permutation a seed yields is not asserted", "3/C09"),
